@@ -422,6 +422,16 @@ func (c *Check) guardedField(g guardedFieldSpec) {
 
 // callersHold: every static call of f passes a receiver whose mutex mu is held at the call.
 func callersHold(p *Program, f *ssa.Function, mu string) string {
+	return callersHoldDepth(p, f, mu, 0)
+}
+
+// callersHoldDepth: every call of f is made with the receiver's mutex held: at the call, or
+// because the caller is itself a helper all of whose callers hold it (a requires-lock chain),
+// or through a method value (`read := d.readFrames; read()`) created and called under the lock.
+func callersHoldDepth(p *Program, f *ssa.Function, mu string, depth int) string {
+	if depth > 3 {
+		return "the chain of lock-requiring helpers is too long to follow"
+	}
 	n := 0
 	for g := range p.AllFns {
 		if !fnInModule(g) || g.Blocks == nil {
@@ -437,15 +447,98 @@ func callersHold(p *Program, f *ssa.Function, mu string) string {
 				if len(call.Common().Args) == 0 {
 					return "a caller passes no receiver"
 				}
-				base, ok := mutexIdentity(call.Common().Args[0])
-				if !ok || !heldAt(g, ins)[base+"."+mu] {
-					return "caller " + fnName(g) + " does not hold it at the call"
+				recv := call.Common().Args[0]
+				if strings.HasSuffix(g.Name(), "$bound") && g.Synthetic != "" {
+					// method value: the wrapper is created and invoked somewhere else
+					if why := boundValueUsedUnderLock(p, g, mu, depth); why != "" {
+						return why
+					}
+					continue
 				}
+				base, ok := mutexIdentity(recv)
+				if ok && heldAt(g, ins)[base+"."+mu] {
+					continue
+				}
+				// the caller works on its own receiver and is itself only called under the lock
+				if _, isParam := recv.(*ssa.Parameter); isParam && len(g.Params) > 0 && recv == ssa.Value(g.Params[0]) {
+					if why := callersHoldDepth(p, g, mu, depth+1); why == "" {
+						continue
+					}
+				}
+				return "caller " + fnName(g) + " does not hold it at the call"
 			}
 		}
 	}
 	if n == 0 {
 		return "it has no static caller to inherit the lock from"
+	}
+	return ""
+}
+
+// boundValueUsedUnderLock: every method value made from the $bound wrapper w is only called,
+// in the function that makes it, at points where the bound receiver's mutex is held (or that
+// function is a lock-requiring helper itself).
+func boundValueUsedUnderLock(p *Program, w *ssa.Function, mu string, depth int) string {
+	n := 0
+	for g := range p.AllFns {
+		if !fnInModule(g) || g.Blocks == nil {
+			continue
+		}
+		for _, b := range g.Blocks {
+			for _, ins := range b.Instrs {
+				mc, ok := ins.(*ssa.MakeClosure)
+				if !ok || mc.Fn != ssa.Value(w) || len(mc.Bindings) == 0 {
+					continue
+				}
+				n++
+				recv := mc.Bindings[0]
+				// every use of the value: a call, possibly through phis
+				var uses []ssa.Instruction
+				seen := map[ssa.Value]bool{}
+				var collect func(v ssa.Value) bool
+				collect = func(v ssa.Value) bool {
+					if seen[v] || v.Referrers() == nil {
+						return true
+					}
+					seen[v] = true
+					for _, r := range *v.Referrers() {
+						switch x := r.(type) {
+						case *ssa.Phi:
+							if !collect(x) {
+								return false
+							}
+						case *ssa.DebugRef:
+						case ssa.CallInstruction:
+							if x.Common().Value != v {
+								return false // passed on as an argument
+							}
+							uses = append(uses, x)
+						default:
+							return false
+						}
+					}
+					return true
+				}
+				if !collect(mc) {
+					return "a method value of " + strings.TrimSuffix(w.Name(), "$bound") + " escapes from " + fnName(g)
+				}
+				for _, u := range uses {
+					base, ok := mutexIdentity(recv)
+					if ok && heldAt(g, u)[base+"."+mu] {
+						continue
+					}
+					if _, isParam := recv.(*ssa.Parameter); isParam && len(g.Params) > 0 && recv == ssa.Value(g.Params[0]) {
+						if why := callersHoldDepth(p, g, mu, depth+1); why == "" {
+							continue
+						}
+					}
+					return "the method value is called in " + fnName(g) + " without the lock"
+				}
+			}
+		}
+	}
+	if n == 0 {
+		return "a method-value wrapper has no creation site"
 	}
 	return ""
 }
